@@ -53,6 +53,7 @@ type caseIn struct {
 	Ops      []opIn  `json:"ops"`
 	Writers  int     `json:"writers,omitempty"` // >0: concurrent mode
 	RT       *rtIn   `json:"rt,omitempty"`      // real-time interval case (rt.go); everything above is unused then
+	FL       *flIn   `json:"fl,omitempty"`      // concurrent-flushers case (flushers.go); everything above is unused then
 	StoreFail []int  `json:"store_fail,omitempty"` // the k-th call of sentStorage.Store (1-based) returns an error, once each
 	// ElMode: how the ElapsedTime of successive points is drawn (the library must keep WRITE order per
 	// data id whatever the elapsed times are): 0 strictly increasing (1,2,3,...), 1 random in -4..19
@@ -1236,6 +1237,9 @@ func main() {
 				add(c, "backlog")
 			}
 		}
+		for _, c := range genFlushers(r.Fork(), *tier) {
+			add(&caseIn{Policy: "fl-" + c.Policy, FL: c}, "flushers")
+		}
 		// real-time family last: it forks the generator after every event-history case was drawn
 		for _, c := range genRT(r.Fork(), *tier) {
 			add(&caseIn{Policy: "rt-" + c.Mode, RT: c}, "rt-interval")
@@ -1253,6 +1257,20 @@ func main() {
 		go func(i int, j job) {
 			defer wg.Done()
 			defer func() { <-sem }()
+			if j.c.FL != nil {
+				term, obs, direct, anomalies := runFlushers(j.c.FL, rng.New(j.seed))
+				if strings.HasPrefix(direct, "harness:") {
+					fmt.Fprintln(os.Stderr, direct)
+					os.Exit(3)
+				}
+				if term == "" {
+					term = "FL (mkFlCase PNone 0 0 0 [] [] [] false)"
+				}
+				mu.Lock()
+				results[i] = coqfmt.Case{Term: term, Input: j.c, Observed: obs, Seed: j.seed, Nontrivial: anomalies == 0 && direct == "", Kind: j.kind, Direct: direct}
+				mu.Unlock()
+				return
+			}
 			res := runCase(j.c, rng.New(j.seed))
 			nt := res.nchunks >= 2 && res.nids >= 2 && res.aliasUse
 			cs := coqfmt.Case{Term: "UC (" + res.term + ")", Input: j.c, Observed: res.observed, Seed: j.seed, Nontrivial: nt, Kind: j.kind, Direct: res.direct}
@@ -1336,6 +1354,7 @@ func main() {
 	}
 	rule := "exhaustive: every op sequence of fixed length over {write id1, write id2 (0-byte and 6-byte point), zero-point write, flush, ack oldest outstanding + alias, tick} per policy, then close; random: 3-16 ops over 1-5 data ids, 0-3 points per write with payload lengths straddling the size threshold, policies none/interval/size/interval-or-size/immediate, QoS x3, ack styles none/eager/reordered/duplicated+failure codes, aliases handed out in the open response and mid-stream, ops after close; elapsed times of successive points increasing, random with duplicates and negative values, decreasing or sawtooth (ElMode), so per-data-id WRITE order differs from elapsed-time order in about 2/3 of the cases. non-trivial = >=2 chunks, >=2 data ids and at least one group transmitted in alias form; distinct = distinct Coq case terms"
 	rule += "; storefail: the same histories with the k-th sentStorage.Store call (k in 1..5, one or two of them) returning an error once, followed by more writes, Flush and Close, every policy; backlog: 4200-9000 zero/one-byte points buffered without a cut under none, size (threshold never exceeded), interval-only between ticks, as one huge write, 110-150 writes of 40-50 points, or two huge writes to two ids"
+	rule += "; flushers: 4-8 goroutines each with its own data id looping {write 1-2 points; Flush; State()} for 300 rounds (600 thorough) on one upstream under none / 1 MiB size / 1 h interval policies (only Flush cuts); every round judged: after a nil Flush no own-id point buffered and every own-id point accepted before in a chunk with sequence number <= the snapshot's last issued one; the Coq case shows the last three rounds of the first anomalous goroutine (else goroutine 1)"
 	rule += "; rt-interval (real clock, no policy wrapper): 1-3 streams on one connection opened with no flush-policy option (the library's shared default object, 100 ms / 10000 B), IntervalOnly(d) or IntervalOrBufferSize(d,64), d in {20,50} ms, private or one shared policy object; a neighbour cuts by size every 2-5 ms, is closed, or all streams resume after a link cut; 2 small writes per stream under test at random phases; each must reach the broker within interval+slack ms (a miss is re-run alone 3 times); non-trivial = >=2 streams with a neighbour action and no miss"
 	extra := map[string]interface{}{"rt_wall_ms": rtWall.Milliseconds(), "rt_first_pass_misses_retried": rtRetried}
 	if err := w.Flush(*seed, *tier, rule, false, extra); err != nil {
